@@ -15,8 +15,9 @@ import plain
 from attrs import Oracle, node_obs, judge_seeds_sound
 from plain import make_sd
 
-RULE = ("early-stopped strategy + skip completion + seeds of all nodes in random order; 70% networks composed around "
-        "motif-avoidant cores with latches (overlapping skip nodes), 30% expression/lattice networks; non-trivial = at least "
+RULE = ("early-stopped strategy or hand-driven single-node expansion in arbitrary order + skip completion + seeds of all nodes in "
+        "random order; 45% networks composed around motif-avoidant cores with latches (overlapping skip nodes), 30% cores driving "
+        "chains of latches (grid-shaped lattices, up to 8 variables), 25% expression/lattice networks; non-trivial = at least "
         "one skip node with two successors; distinct by case hash")
 ASSUMPTIONS = ["E6 (NFVS reduction theorem), E1, E4, E5, E7 as for C01"]
 CASE_TIMEOUT = {"quick": 40, "thorough": 120}
@@ -28,8 +29,29 @@ def budget(tier):
 
 def gen_case(rng, tier, k):
     nmax = 6 if tier == "quick" else 7
-    bnet = common.g_compose(rng, kind="maa", extra_max=max(1, nmax - 3)) if rng.random() < 0.7 else common.g_mixed(rng, nmax=nmax, p_core=0.0)
+    r = rng.random()
+    if r < 0.3:
+        bnet = common.g_chains(rng, total_max=nmax + 2, kind=rng.choice(["maa", "burst"]))
+    elif r < 0.75:
+        bnet = common.g_compose(rng, kind="maa", extra_max=max(1, nmax - 3))
+    else:
+        bnet = common.g_mixed(rng, nmax=nmax, p_core=0.0)
     lim = rng.randint(1, 7)
+    if r < 0.3 and rng.random() < 0.6:
+        # hand-driven expansion: single nodes in arbitrary order (a node may be created before one of
+        # its parents), attractor search in the expanded part, then everything else is skipped
+        if rng.random() < 0.3:
+            ops = [["succ", rng.randrange(1 << 16)] for _ in range(rng.randint(3, 16))]
+            if rng.random() < 0.5:
+                ops.insert(rng.randrange(len(ops)), ["bfs", rng.randrange(64), rng.randint(0, 1), None])
+        else:
+            # random stubs of the frontier, one at a time; some of them expanded with everything below
+            ops = [["frontier", rng.randrange(1 << 30), rng.randint(4, 18), rng.choice([0.0, 0.1, 0.2, 0.3]), rng.choice([0.0, 0.2, 0.4])]]
+        if rng.random() < 0.7:
+            ops.append(["expseeds"])
+        ops.append(["skiprem"])
+        return {"bnet": bnet, "ops": ops, "order_seed": rng.choice([None, rng.randrange(1 << 30)]), "fallback": rng.random() < 0.2,
+                "candidate_limit": 100000}
     first = rng.choice([["bfs", 0, None, lim], ["bfs", 0, rng.randint(0, 2), None], ["dfs", 0, None, lim],
                         ["dfs", 0, rng.randint(0, 2), None], ["min", 0, lim, False], ["min", 0, None, True],
                         ["min", 0, lim, True], ["aseeds", lim], ["blockx", True, lim, True, False], ["none"]])
@@ -47,8 +69,28 @@ def gen_case(rng, tier, k):
             "candidate_limit": rng.choice([100000, 100000, 100000, 1, 2])}
 
 
+_avoid = []
+
+
+def _patch_avoid():
+    """record the list of avoided spaces the candidate computation hands to the reduced-STG solver"""
+    import biobalm._sd_attractors.attractor_candidates as ac
+
+    if getattr(ac.compute_fixed_point_reduced_STG, "_c05", False):
+        return
+    orig = ac.compute_fixed_point_reduced_STG
+
+    def rec(pn, retained_set={}, ensure_subspace={}, avoid_subspaces=[], solution_limit=None):
+        _avoid.append([dict(x) for x in avoid_subspaces])
+        return orig(pn, retained_set, ensure_subspace=ensure_subspace, avoid_subspaces=avoid_subspaces, solution_limit=solution_limit)
+
+    rec._c05 = True
+    ac.compute_fixed_point_reduced_STG = rec
+
+
 def run_case(case):
     plain._patch_recorders()
+    _patch_avoid()
     sd = make_sd(case)
     sd.config["attractor_candidates_limit"] = case.get("candidate_limit", 100000)
     ni = common.NetInfo(sd.network)
@@ -65,13 +107,27 @@ def run_case(case):
         random.Random(case["order_seed"]).shuffle(order)
     orc = Oracle(ni)
     seeds, errors = {}, 0
+    excl_ties = []
     for i in order:
         if not sd.node_data(i)["expanded"]:
             continue
+        d = sd.node_data(i)
+        tie = None
+        if d["skipped"] and d["attractor_candidates"] is None and d["attractor_seeds"] is None:
+            # the exclusion rule of skip nodes, on the diagram as it is at the time of the query
+            empties = [j for j in sd.node_ids()
+                       if sd.node_data(j)["attractor_candidates"] == [] or sd.node_data(j)["attractor_seeds"] == []]
+            tie = (ni.sp(d["space"]), ",".join(map(str, empties)) or "-", common.dump_sd(sd, ni),
+                   {ni.sp(d["space"] | sd.edge_stable_motif(i, c, reduced=True)) for c in sd.dag.successors(i)})
+        del _avoid[:]
         try:
             seeds[i] = [dict(s) for s in sd.node_attractor_seeds(i, compute=True, symbolic_fallback=case["fallback"])]
         except RuntimeError:
             errors += 1
+        if tie is not None and _avoid:
+            real = {ni.sp(d["space"] | a) for a in _avoid[0]}
+            orc.ask(("excl", i), f"SKIPEXCL {tie[0]} {tie[1]} {tie[2]}")
+            excl_ties.append((i, real, tie[3]))
     if errors:
         return {"fails": [], "diffs": [], "tags": ["candidate-limit-error"], "nontrivial": False}
     stubs = [i for i in sd.node_ids() if not sd.node_data(i)["expanded"]]
@@ -91,12 +147,31 @@ def run_case(case):
             for a, nodes in seen.items():
                 if len(nodes) > 1:
                     fails.append({"kind": "duplicate-attractor", "detail": f"no motif-avoidant attractor in the network, yet attractor {a} is reported by nodes {nodes}"})
+    diffs = []
+    def region(spaces):
+        # the states covered by a list of spaces (the lists themselves may differ harmlessly)
+        out = set()
+        for sp in spaces:
+            free = [k for k, ch in enumerate(sp) if ch == "-"]
+            for m in range(1 << len(free)):
+                st = list(sp)
+                for b, k in enumerate(free):
+                    st[k] = "1" if (m >> b) & 1 else "0"
+                out.add("".join(st))
+        return out
+
+    for i, real, child in excl_ties:
+        model = set(orc.get(("excl", i)).split())
+        if real != child | model and region(real) != region(child | model):
+            diffs.append({"stream": "OBS spaces avoided by a skip node vs child motifs + Impl.skipExclusions", "node": i,
+                          "impl_only": sorted(real - (child | model)), "model_only": sorted((child | model) - real)})
     nskip = sum(1 for i in sd.node_ids() if sd.node_data(i)["skipped"])
     skip2 = any(sd.node_data(i)["skipped"] and sd.dag.out_degree(i) >= 2 for i in sd.node_ids())
     for f in fails:
         f.setdefault("sig", {}).update({"maa": bool(orc.maa), "skip_nodes": min(nskip, 2)})
-    tags = ["skip-nodes:%d" % min(nskip, 3)] + (["motif-avoidant-attractor"] if orc.maa else []) + (["fallback"] if case["fallback"] else [])
-    return {"fails": fails, "diffs": [], "tags": tags, "nontrivial": skip2, "sig": common.case_hash(case),
+    nexcl = sum(1 for i, real, child in excl_ties if real - child)
+    tags = (["exclusion-tie"] if excl_ties else []) + (["exclusion-used"] if nexcl else []) + ["skip-nodes:%d" % min(nskip, 3)] + (["motif-avoidant-attractor"] if orc.maa else []) + (["fallback"] if case["fallback"] else [])
+    return {"fails": fails, "diffs": diffs, "tags": tags, "nontrivial": skip2, "sig": common.case_hash(case),
             "sample": {"skip_nodes": nskip, "attractors": len(orc.atts), "maa": len(orc.maa)}}
 
 
@@ -104,6 +179,13 @@ def corpus():
     core = ("c0, (!c0 & !c1 & !c2) | (!c0 & c1 & !c2) | (c0 & !c1 & c2) | (c0 & c1 & c2)\nc1, !c0 & c1 & !c2\n"
             "c2, (c0 & !c1 & !c2) | (!c0 & !c1 & c2) | (c0 & c1 & c2)\n")
     f7 = core + "x0, x0 | ((((!x0 & !c2) | (x0 & c2)) & x0) | (!((!x0 & !c2) | (x0 & c2)) & !x0))\nx1, x1 | (c1 & !c0)"
-    return [{"bnet": f7, "ops": [["min", 0, 6, True], ["skiprem"]], "order_seed": None, "fallback": False},
+    # replay of a past failure (seeded change W2-C05-a): two skip nodes created before one of their parents
+    sp = lambda i, j, k, c=0: dict([("x1", 1)] * (i >= 1) + [("x2", 1)] * (i >= 2) + [("y1", 1)] * (j >= 1) + [("y2", 1)] * (j >= 2)
+                                   + [("z", 1)] * (k >= 1) + [("c", 1)] * c)
+    grid = {"bnet": "a, !a & !b\nb, !a & !b\nc, c | (a & b)\nx1, x1 | a\nx2, x1 & (x2 | a)\ny1, y1 | a\ny2, y1 & (y2 | a)\nz, z | a",
+            "ops": [["expsp", sp(*t)] for t in [(0, 0, 0), (1, 0, 0), (1, 1, 0), (2, 1, 0), (1, 2, 0), (0, 1, 0), (0, 2, 0), (0, 2, 1)]]
+            + [["bfssp", sp(0, 2, 1, 1)], ["expsp", sp(2, 0, 0)], ["expsp", sp(2, 0, 1)], ["bfssp", sp(2, 0, 1, 1)], ["expseeds"], ["skiprem"]],
+            "order_seed": None, "fallback": False, "candidate_limit": 100000}
+    return [grid, {"bnet": f7, "ops": [["min", 0, 6, True], ["skiprem"]], "order_seed": None, "fallback": False},
             {"bnet": "a, a | (b & c)\nb, b | (a & c)\nc, !c | (a & b & c)", "ops": [["seedsq", 0], ["skipmin", 0], ["skiprem"]],
              "order_seed": 1, "fallback": False}]
